@@ -20,7 +20,8 @@ META = {
     'technique': ('Lean 4 proof (structural induction over expression trees; fuel-based precedence-climbing reference '
                   'parser parametric in all binding powers) + operator tables extracted from sqlbuilder.py + '
                   'differential correspondence on token streams and SQLite three-valued results'),
-    'level_text': ('Theorems C03_parse_render / C03_filter_sound: for every well-typed source tree (unbounded depth), every '
+    'level_text': ('Theorems C03_parse_render / C03_filter_sound: for every well-typed source tree (unbounded depth; boolean '
+                   'subexpressions may also be operands of comparisons and arithmetic — E.b2i, value 1/0/NULL), every '
                    'dialect and EVERY assignment of binding powers to the operators, the reference parser recovers from the '
                    'rendered tokens exactly the tree the constructors built, and the parsed text selects a row iff the source '
                    'tree is true on it under three-valued logic; `== None` is IS NULL and no (in)equality operator is ever '
@@ -82,7 +83,7 @@ def env():
 
 # --------------------------------------------------------------------------- trees
 def is_num(t):
-    return t[0] in ('c', 'k', 'ar', 'neg', 'pos')
+    return t[0] in ('c', 'k', 'ar', 'neg', 'pos', 'b2i')
 
 
 def ser(t):
@@ -93,7 +94,7 @@ def ser(t):
         return 'k%d' % t[1]
     if k == 'ar' or k == 'cmp':
         return '%s %s %s %s' % (k, t[1], ser(t[2]), ser(t[3]))
-    if k in ('neg', 'pos', 'not~', 'NOT', 'isnull', 'isnotnull', 'eqnone', 'nenone'):
+    if k in ('neg', 'pos', 'b2i', 'not~', 'NOT', 'isnull', 'isnotnull', 'eqnone', 'nenone'):
         return '%s %s' % (k, ser(t[1]))
     if k in ('and&', 'or|'):
         return '%s %s %s' % (k, ser(t[1]), ser(t[2]))
@@ -172,6 +173,9 @@ def build_real(t, flip=0):
         if op == 'mul':
             return l * r
         return l / r
+    if k == 'b2i':
+        # a boolean expression used where a number is expected: same object, SQL reads it as 0 / 1 / NULL
+        return build_real(t[1], flip)
     if k == 'neg':
         x = build_real(t[1], flip)
         return -x if isinstance(x, sb.SQLExpression) else sb.SQLPrefix('-', x)
@@ -312,6 +316,9 @@ def ev(t, row):
         return None if v is None else -v
     if k == 'pos':
         return ev(t[1], row)
+    if k == 'b2i':
+        v = ev(t[1], row)
+        return None if v is None else int(v)
     if k == 'cmp':
         return cmp_sem(t[1], ev(t[2], row), ev(t[3], row))
     if k == 'and&':
@@ -653,13 +660,16 @@ def rnd_leaf(rng):
     return ('k', rng.choice(CONSTS + [1, -2, 3]))
 
 
-def rnd_num(rng, d):
+def rnd_num(rng, d, mixed=True):
     if d <= 0 or rng.random() < 0.3:
         return rnd_leaf(rng)
     r = rng.random()
-    if r < 0.7:
-        return ('ar', rng.choice(AR), rnd_num(rng, d - 1), rnd_num(rng, d - 1))
-    return (rng.choice(['neg', 'neg', 'pos']), rnd_num(rng, d - 1))
+    if r < 0.18 and mixed:
+        # mixed sort: a boolean subexpression as a numeric operand (SQL: 0 / 1 / NULL)
+        return ('b2i', rnd_bool(rng, max(1, d - 1)))
+    if r < 0.75:
+        return ('ar', rng.choice(AR), rnd_num(rng, d - 1, mixed), rnd_num(rng, d - 1, mixed))
+    return (rng.choice(['neg', 'neg', 'pos']), rnd_num(rng, d - 1, mixed))
 
 
 def rnd_items(rng, d):
@@ -668,7 +678,7 @@ def rnd_items(rng, d):
 
 
 def rnd_bool(rng, d):
-    if d <= 1 or rng.random() < 0.2:
+    if d <= 1 or rng.random() < 0.3:
         r = rng.random()
         dn = max(0, d - 1)
         if r < 0.5:
@@ -693,7 +703,7 @@ def rnd_bool_sub(rng, d):
     """boolean tree whose leaves may be IN / NOT IN against a sub-select (oracle-only stream)"""
     if d <= 1 or rng.random() < 0.25:
         if rng.random() < 0.7:
-            return (rng.choice(['insub', 'notinsub']), rnd_num(rng, rng.choice([0, 0, 1, 2])), rng.randint(0, 2))
+            return (rng.choice(['insub', 'notinsub']), rnd_num(rng, rng.choice([0, 0, 1, 2]), mixed=False), rng.randint(0, 2))
         return rnd_bool(rng, 1)
     r = rng.random()
     if r < 0.4:
@@ -703,7 +713,8 @@ def rnd_bool_sub(rng, d):
     return (rng.choice(['not~', 'NOT']), rnd_bool_sub(rng, d - 1))
 
 
-NUM_KINDS = ['leaf'] + ['ar-' + o for o in AR] + ['neg', 'pos']
+B2I_KINDS = ['b2i-' + k for k in ('eqnone', 'isnotnull', 'cmp-eq', 'cmp-lt', 'NOT', 'not~', 'and&', 'OR', 'in', 'notin')]
+NUM_KINDS = ['leaf'] + ['ar-' + o for o in AR] + ['neg', 'pos'] + B2I_KINDS
 BOOL_KINDS = (['cmp-' + o for o in CMP] + ['and&', 'or|', 'AND', 'OR', 'not~', 'NOT', 'in', 'notin',
                                            'isnull', 'isnotnull', 'eqnone', 'nenone'])
 
@@ -714,6 +725,8 @@ def num_of_kind(rng, kind, leaf=None):
         return leaf()
     if kind.startswith('ar-'):
         return ('ar', kind[3:], leaf(), leaf())
+    if kind.startswith('b2i-'):
+        return ('b2i', bool_of_kind(rng, kind[4:]))
     return (kind, leaf())
 
 
@@ -759,6 +772,23 @@ def shapes_depth2(rng, reps):
     return out
 
 
+def shapes_mixed(rng, reps):
+    """boolean tests as operands of arithmetic, itself under a comparison / NULL test / IN"""
+    out = []
+    for _ in range(reps):
+        for op in ('add', 'sub', 'mul'):
+            for k1 in B2I_KINDS:
+                for k2 in B2I_KINDS + ['leaf']:
+                    a = ('ar', op, num_of_kind(rng, k1), num_of_kind(rng, k2))
+                    if rng.random() < 0.5:
+                        a = ('ar', op, a[3], a[2])
+                    out.append(('cmp', rng.choice(CMP), a, rnd_leaf(rng)))
+        for k1 in B2I_KINDS:
+            out.append(('cmp', rng.choice(CMP), ('neg', num_of_kind(rng, k1)), rnd_leaf(rng)))
+            out.append((rng.choice(['isnull', 'eqnone', 'nenone']), num_of_kind(rng, k1)))
+    return out
+
+
 def load_corpus():
     import os
     import json
@@ -774,7 +804,7 @@ def load_corpus():
 
 def from_json(x):
     if isinstance(x, list):
-        if x and isinstance(x[0], str) and x[0] in (['c', 'k', 'ar', 'neg', 'pos', 'cmp', 'and&', 'or|', 'AND', 'OR', 'not~', 'NOT',
+        if x and isinstance(x[0], str) and x[0] in (['c', 'k', 'ar', 'neg', 'pos', 'b2i', 'cmp', 'and&', 'or|', 'AND', 'OR', 'not~', 'NOT',
                                                      'in', 'notin', 'insub', 'notinsub', 'isnull', 'isnotnull', 'eqnone', 'nenone']):
             k = x[0]
             if k in ('AND', 'OR'):
@@ -796,7 +826,8 @@ def gen_cases(ctx):
     for n in num_depth1():
         cases.append(('cmp', rng.choice(CMP), n, rng.choice(leaves_num())))
         cases.append(('cmp', rng.choice(CMP), rng.choice(leaves_num()), n))
-    cases += shapes_depth2(rng, 10 if deep else 4)
+    cases += shapes_depth2(rng, 8 if deep else 3)
+    cases += shapes_mixed(rng, 4 if deep else 1)
     nrand = ctx.budget(9000, 150000)
     for _ in range(nrand):
         cases.append(rnd_bool(rng, rng.choice([2, 3, 3, 4, 4, 5, 6])))
@@ -810,12 +841,15 @@ def reductions(t):
     if k in ('c', 'k'):
         return
     if is_num(t):
-        subs = [x for x in t[1:] if isinstance(x, tuple)]
+        subs = [x for x in t[1:] if isinstance(x, tuple) and is_num(x)]
         for s in subs:
             yield s
         for leaf in (('c', 0), ('k', 1)):
             yield leaf
     else:
+        for x in t[1:]:
+            if isinstance(x, tuple) and x[0] == 'b2i':
+                yield x[1]
         if k in ('and&', 'or|'):
             yield t[1]
             yield t[2]
@@ -942,6 +976,12 @@ def run(ctx):
             if key not in reported:
                 reported.add(key)
                 ctx.oracle_fail(key, text, {'tree': to_json(t), 'ser': s})
+    # directed probe of the documented limit of the fragment (a note, not a verdict): a boolean whose text is
+    # `NOT …` as the LEFT operand of an IN-subquery is not parenthesised by INSubquery.__sqlrepr__
+    w = ('insub', ('b2i', ('NOT', ('cmp', 'eq', ('c', 0), ('k', 1)))), 0)
+    wf_ = oracle(w, run_impl(w), text_level=False)
+    ctx.note('out-of-fragment witness IN(NOT(a == 1), <sub-select>) -> %s: %s'
+             % (run_impl(w)['texts'].get('sqlite'), 'captured by NOT (wrong rows on SQLite)' if wf_ else 'reads correctly'))
     ctx.note('outside the well-typed fragment (INSubquery / LIKE whose left operand renders starting with "(" or as NOT …) '
              'the renderer does not parenthesise; not part of the theorem (typing hypothesis)')
     ctx.note('`x IN ()` is what IN(x, []) renders; false on SQLite (executed), a syntax error on MySQL/PostgreSQL (not executable here)')
